@@ -223,10 +223,37 @@ def run(ctx, rep: Report, deep: bool = False):
                 if not all(component_ok(c, k == len(comps) - 1) for k, c in enumerate(comps)):
                     rep.findings.append(Finding("akai-path-component-unsafe", dict(detail, path=path)))
                     break
+    # whole Roland images (S182): one performance assigned to two volumes - the same performance and sample names under
+    # two volume folders; one file per `Exported` line, every component inside the rules, every level present
+    import gen_roland as GR
+
+    for i in range(ctx.n(2, 12)):
+        smp = {k: GR.Sample(["Kick", "Snare 1", "Hat.x"][k], GR.random_words(rng, rng.randint(20, 300)), mode=0) for k in range(3)}
+        rdisc = GR.Disc([GR.Volume("VOL A", [0, 1]), GR.Volume(["VOL B", "VOL A"][i % 2], [0])], {0: GR.Performance("Shared", [0]), 1: GR.Performance("Own", [1])},
+                        {0: GR.Patch("Q0", [0]), 1: GR.Patch("Q1", [1])}, {0: GR.Partial("R0", [0, 1, None, None]), 1: GR.Partial("R1", [2, None, None, None])}, smp)
+        rimg, _ = GR.serialize(rdisc, rng)
+        with E.Scratch() as sc:
+            pth = sc.write("r.img", rimg)
+            files, exported, err = E.export_real(pth)
+        want = 2 + 1 + 2  # Shared under two volumes (Kick, Snare 1) twice ... see below
+        want = 2 * 2 + 1
+        detail = {"files": sorted(files)[:20], "exported_lines": len(exported), "error": err}
+        rep.evaluations += 1
+        rep.feat("roland_images_with_a_shared_performance")
+        if err:
+            rep.findings.append(Finding("roland-export-crash", detail))
+        elif not (len(files) == len(exported) == len(set(exported)) == want):
+            rep.findings.append(Finding("roland-files-vs-exported-lines", dict(detail, on_disk=len(files), expected=want)))
+        else:
+            for path in files:
+                comps = path.split("/")
+                if len(comps) != 3 or not all(component_ok(c, k == len(comps) - 1) for k, c in enumerate(comps)):
+                    rep.findings.append(Finding("roland-path-component-unsafe", dict(detail, path=path)))
+                    break
     if ctx.model_available:
         compare_family(rep, "names", cases, nontrivial=lambda c: True, exhaustive=True)
     rep.exhaustive = True
-    rep.required_features = ["strings_exhaustive", "sibling_lists_exhaustive", "lists_with_duplicates", "cdda_hostile_titles", "directory_pipeline_with_pair", "akai_images_with_equal_directory_names"]
+    rep.required_features = ["strings_exhaustive", "sibling_lists_exhaustive", "lists_with_duplicates", "cdda_hostile_titles", "directory_pipeline_with_pair", "akai_images_with_equal_directory_names", "roland_images_with_a_shared_performance"]
 
 
 def search(ctx, rep: Report):
